@@ -71,6 +71,15 @@ for z in (1 + 1j, 1 - 1j, -1 + 1j, -1 - 1j):          # 2-point Gauss-Hermite pe
 print("5 complex VCG: E_d[J^T J] diag =", np.diag(EJJ), " metric diag =", [s ** 2, s ** 2, 4 / s ** 2],
       "DEFECT" if abs(EJJ[2, 2] - 4 / s ** 2) > 1e-9 else "ok")
 
+# 5b. after repo commit f973d98 (fix of 5 with jnp.sqrt): Vector data crashes in transformation ----------
+lhv = jft.VariableCovarianceGaussian(jft.Vector({"a": jnp.array([1.0, 2.0])}))
+pv = (jft.Vector({"a": jnp.array([0.5, 1.0])}), jft.Vector({"a": jnp.array([1.0, 2.0])}))
+try:
+    lhv.transformation(pv)
+    print("5b VCG.transformation with Vector data: ok")
+except TypeError as e:
+    print("5b VCG.transformation with Vector data: DEFECT TypeError:", str(e)[:80])
+
 # 6. (known, no small fix) NDVariableCovarianceGaussian.transformation, non-commuting tangent ----
 X = np.array([[2.0, 0.75], [0.75, 1.0]])
 mv = np.array([0.5, -0.25])
